@@ -157,7 +157,7 @@ class Sandbox:
     def run(self, step, faults=()):
         return kernel.run(self.env, self.cwd, argv_for(step, self.env, self.root),
                           hash_seed=step.get("hash_seed", 1), dirent_seed=step.get("dirent_seed", 1),
-                          env_pad=step.get("env_pad", 0), faults=faults, timeout_ms=step.get("timeout_ms", 20000))
+                          env_pad=step.get("env_pad", 0), faults=faults, timeout_ms=step.get("timeout_ms", 60000), cpu_ms=step.get("cpu_ms"))
 
     def apply(self, step):
         op = step["op"]
